@@ -279,6 +279,13 @@ impl LoWorkload {
             if indels.is_empty() {
                 continue;
             }
+            // sometimes the same insertion (same bases, same carriers) happens at two loci
+            if indels.len() >= 2 && indels[0].del == 0 && rng.chance(12) {
+                let (ins, carriers) = (indels[0].ins.clone(), indels[0].carriers.clone());
+                indels[1].ins = ins;
+                indels[1].del = 0;
+                indels[1].carriers = carriers;
+            }
             let mut seqs = vec![];
             let mut labels = vec![];
             for s in 0..n {
@@ -429,6 +436,19 @@ impl Workload for LoWorkload {
         let found = acct["probes"]["c18_planted_indels_reported"].as_u64().unwrap_or(0);
         if planted >= 20 && (found as f64) < 0.9 * planted as f64 {
             return Some(("lo:indel-recall-below-90-percent".into(), format!("{found} of {planted} planted isolated indels were reported over the batch ({:.1}%)", 100.0 * found as f64 / planted as f64)));
+        }
+        // the same claim for every sub-population of the quantifier's own dimensions (k, length,
+        // insertion/deletion, carrier pattern) that is large enough in this batch
+        if let Some(p) = acct["probes"].as_object() {
+            for (name, v) in p {
+                if let Some(st) = name.strip_prefix("c18_stratum_").and_then(|x| x.strip_suffix("_planted")) {
+                    let pl = v.as_u64().unwrap_or(0);
+                    let rp = p.get(&format!("c18_stratum_{st}_reported")).and_then(|x| x.as_u64()).unwrap_or(0);
+                    if pl >= 300 && (rp as f64) < 0.9 * pl as f64 {
+                        return Some((format!("lo:indel-recall-below-90-percent[{st}]"), format!("{rp} of {pl} planted isolated indels of the sub-population '{st}' were reported over the batch ({:.1}%)", 100.0 * rp as f64 / pl as f64)));
+                    }
+                }
+            }
         }
         None
     }
@@ -736,6 +756,38 @@ impl Workload for LoWorkload {
                     }
                     if vi == 0 {
                         planted_found = matched.iter().map(|(k, c)| (*c).min(planted_keys[k]) as u64).sum();
+                        // recall per sub-population of the planted indels (a record cannot be told apart
+                        // within a group of planted indels that split the samples the same way, so the first
+                        // `matched` members of a group count as reported)
+                        let mut rank: BTreeMap<BTreeSet<usize>, usize> = BTreeMap::new();
+                        let a = c.ancestor.as_bytes();
+                        for d in &c.indels {
+                            let key = part(&d.carriers.iter().copied().collect());
+                            let r = rank.entry(key.clone()).or_insert(0);
+                            let found = *r < matched.get(&key).copied().unwrap_or(0);
+                            *r += 1;
+                            let l = d.del.max(d.ins.len());
+                            let mut strata = vec![match l { 1 => "len1", 2 => "len2", 3..=5 => "len3to5", _ => "len6to10" }, if d.del > 0 { "deletion" } else { "insertion" }];
+                            if d.del == 0 && d.pos >= l && a[d.pos - l..d.pos] == *d.ins.as_bytes() {
+                                strata.push("insertion_copying_its_left_neighbour");
+                            }
+                            if planted_keys[&key] > 1 {
+                                strata.push("same_sample_split_as_another_indel");
+                            }
+                            if c.indels.iter().filter(|e| e.del == 0 && d.del == 0 && e.ins == d.ins && e.carriers == d.carriers).count() > 1 {
+                                strata.push("same_insertion_at_two_loci");
+                            }
+                            if d.carriers.len() == 1 || d.carriers.len() == n - 1 {
+                                strata.push("singleton_carrier_or_non_carrier");
+                            }
+                            strata.push(match c.k { 11 => "k11", 15 => "k15", 21 => "k21", _ => "k31" });
+                            for st in strata {
+                                probe(&format!("c18_stratum_{st}_planted"));
+                                if found {
+                                    probe(&format!("c18_stratum_{st}_reported"));
+                                }
+                            }
+                        }
                     }
                     let _ = nrec;
                     probe("c18_indel_vcf_checked");
